@@ -69,7 +69,7 @@ func kaConnect(svr *service.Server, id int, c wConnect) (*rawClient, bool) {
 	rc.write(c.encode())
 	rc.waitUntil(func() bool { return len(rc.items) > 0 || rc.eof }, brokerWait)
 	it := rc.take()
-	return rc, len(it) > 0 && it[0] == "CONNACK 0 0"
+	return rc, len(it) > 0 && (it[0] == "CONNACK 0 0" || it[0] == "CONNACK 1 0")
 }
 
 func kaScenario(id, K int, interval time.Duration, count int, kind string) string {
@@ -102,8 +102,21 @@ func kaScenario(id, K int, interval time.Duration, count int, kind string) strin
 	wit.write(wSubscribe(1, [][]byte{willTopic}, []int{0}))
 	wit.waitUntil(func() bool { return len(wit.items) > 0 }, brokerWait)
 	wit.take()
-	cl, ok := kaConnect(svr, 2, wConnect{protoName: []byte("MQTT"), version: 4, clean: true, clientID: []byte("subject"),
-		keepAlive: K, will: &wWill{topic: willTopic, payload: []byte("gone"), qos: 0}})
+	subject := wConnect{protoName: []byte("MQTT"), version: 4, clean: kind != "resumed", clientID: []byte("subject"),
+		keepAlive: K, will: &wWill{topic: willTopic, payload: []byte("gone"), qos: 0}}
+	if kind == "resumed" {
+		// the subject has been here before: a persistent session ended by DISCONNECT (which discards the
+		// will of THAT connection), resumed by a byte-identical CONNECT - the will of the new connection
+		// is in force again and silence on it is an abnormal end like any other
+		first, ok := kaConnect(svr, 4, subject)
+		if !ok {
+			return "subject-refused"
+		}
+		first.write([]byte{0xe0, 0x00})
+		first.waitUntil(func() bool { return first.eof }, brokerWait)
+		first.conn.Close()
+	}
+	cl, ok := kaConnect(svr, 2, subject)
 	if !ok {
 		return "subject-refused"
 	}
@@ -184,7 +197,7 @@ func kaScenario(id, K int, interval time.Duration, count int, kind string) strin
 			break
 		}
 		var err error
-		if kind == "ping" || kind == "irr" {
+		if kind == "ping" || kind == "irr" || kind == "resumed" {
 			err = cl.write([]byte{0xc0, 0x00})
 		} else {
 			err = cl.write(wPub{qos: 0, topic: []byte("t"), payload: []byte{byte(i)}}.encode())
@@ -255,8 +268,8 @@ func genKA(seed int64, n int, tier string, w *bufio.Writer) {
 	// parked in it - finding F7, fixed by b77088f); deafflood (thorough): both rings full, the receiver waits for
 	// ring space and no read deadline is armed - open finding F8
 	fixed := []scn{{1, 0, 0, "ping"}, {1, 400, 4, "ping"}, {1, 500, 3, "pub"}, {1, 2100, 2, "ping"}, {2, 900, 3, "pub"}, {1, 900, 3, "ping"},
-		{1, 300, 0, "silentsub"}, {2, 1900, 4, "irr"}, {1, 950, 4, "irr"}, {1, 100, 0, "deafsub"}, {1, 100, 0, "deafecho"},
-		{2, 100, 0, "deafecho"}, {1, 100, 0, "deafflood"}, {2, 150, 0, "deafsub"}}
+		{1, 300, 0, "silentsub"}, {1, 300, 1, "resumed"}, {2, 1900, 4, "irr"}, {1, 950, 4, "irr"}, {1, 100, 0, "deafsub"}, {1, 100, 0, "deafecho"},
+		{2, 100, 0, "deafecho"}, {1, 100, 0, "deafflood"}, {2, 150, 0, "deafsub"}, {1, 400, 2, "resumed"}}
 	for i := 0; i < n; i++ {
 		var s scn
 		if i < len(fixed) {
@@ -271,6 +284,8 @@ func genKA(seed int64, n int, tier string, w *bufio.Writer) {
 				s = scn{k, k*1000 - 50 - r.Intn(k*300), 2 + r.Intn(3), "irr"}
 			case 2:
 				s = scn{k, 100 + r.Intn(200), 0, pick(r, []string{"deafsub", "deafecho"})}
+			case 3:
+				s = scn{k, 100 + r.Intn(600), r.Intn(3), "resumed"}
 			}
 		}
 		fmt.Fprintf(w, "ka start %d %d %d %d %s\n", i+1, s.k, s.iv, s.cnt, s.kind)
